@@ -1094,7 +1094,16 @@ class InterpExpr:
             return RecV(v.ref, heap)
         if isinstance(v, tuple):
             return tuple(self.pin(x, heap) for x in v)
+        if isinstance(v, SV) and isinstance(v.ty, TOpt) and not self._is_scalar_type(v.ty.t):
+            # Optional[reference]: the view is kept by the value and used when it is narrowed (see narrow_opt)
+            sv = SV(v.t, v.ty)
+            sv.heap = heap
+            return sv
         return v
+
+    @staticmethod
+    def _is_scalar_type(ty):
+        return isinstance(ty, (TPrim, TEnum, TTuple))
 
     def obj_getattr(self, obj, attr, line):
         cls = obj.cls
